@@ -994,6 +994,9 @@ def model_draws(t, lpy) -> int:
 
 
 HO = ["map", "filter", "sorted", "min", "max", "iter", "__build_class__"]
+# whitelisted builtins that run an iterator they are handed (F16-15 / F01-51)
+CONSUMERS = ["list", "tuple", "set", "frozenset", "dict", "sorted", "sum", "min", "max", "any", "all", "bytes",
+             "bytearray", "enumerate", "zip", "reversed", "len", "str", "repr"]
 
 
 def check_semantics(run, mods, wd, rnd, cov):
@@ -1087,6 +1090,8 @@ def call_sigs(node) -> set:
             if isinstance(f, ast.Name) and f.id in HO and any(
                     isinstance(a, ast.Name) for a in list(n.args) + [k.value for k in n.keywords]):
                 sigs.add("higher_order_builtin")
+            if isinstance(f, ast.Name) and f.id in CONSUMERS and any(isinstance(a, ast.Name) for a in n.args):
+                sigs.add("drains_lazy_iterator")
     return sigs
 
 
@@ -1251,6 +1256,8 @@ FINDING_WITNESSES = {
                        "from m import f\nclass A:\n    def f(self):\n        return 1\nf()\n",
                        "class A(Base):\n    pass\nA()\n", "@deco\ndef f():\n    return 1\nf()\n"],
     "higher_order_builtin": ["list(map(print, xs))\n", "sorted(xs, key=print)\n"],
+    "drains_lazy_iterator": ["m = map(lambda x: print('lazy', x), xs)\nlist(m)\n",
+                             "g = (print(x) for x in xs)\nsum(g)\n"],
 }
 
 
